@@ -3,8 +3,11 @@ package all
 
 import (
 	"verif/harness/c01"
+	"verif/harness/c02"
 	"verif/harness/c04"
 	"verif/harness/c05"
+	"verif/harness/c08"
+	"verif/harness/c12"
 	"verif/harness/c17"
 )
 
@@ -16,6 +19,12 @@ func reg(pkg, fn string, e Entry) { Registry["verif/harness/"+pkg+"."+fn] = e }
 
 func init() {
 	reg("c01", "Step", func(a []int64) { c01.Step(int(a[0]), int(a[1]), int(a[2]), int(a[3])) })
+	reg("c02", "Lockstep", func(a []int64) { c02.Lockstep(int(a[0]), int(a[1])) })
+	reg("c08", "Step", func(a []int64) { c08.Step(int(a[0]), int(a[1]), int(a[2])) })
+	reg("c12", "StepLemma", func(a []int64) { c12.StepLemma(int(a[0]), int(a[1]), int(a[2])) })
+	reg("c12", "RunUntil", func(a []int64) { c12.RunUntil(int(a[0]), int(a[1]), int(a[2])) })
+	reg("c12", "ResetClearsStop", func(a []int64) { c12.ResetClearsStop(int(a[0])) })
+	reg("c12", "Callbacks", func(a []int64) { c12.Callbacks(int(a[0]), int(a[1]), int(a[2])) })
 	reg("c04", "BusRoundTrip", func(a []int64) { c04.BusRoundTrip(int(a[0])) })
 	reg("c04", "PakRoundTrip", func(a []int64) { c04.PakRoundTrip(int(a[0])) })
 	reg("c05", "BusWellFormed", func(a []int64) { c05.BusWellFormed(int(a[0])) })
